@@ -130,6 +130,31 @@ func (fv *FuncVC) loopModSet(body []*ssa.BasicBlock) *modSet {
 				addRoot(staticRoot(in.Addr))
 			case *ssa.Alloc:
 				ms.cells[in] = true
+			case *ssa.Call:
+				if bi, ok := in.Call.Value.(*ssa.Builtin); ok && bi.Name() == "append" && fv.C != nil && len(fv.C.Sites) > 0 {
+					ms.ghosts["cov"] = true
+				}
+				ms.anyCall = true
+				eff := fv.P.callEffect(in.Common())
+				for k := range eff.Heap {
+					ms.heap[k] = true
+				}
+				for g := range eff.Globals {
+					ms.globals[g] = true
+				}
+				for l := range eff.Logs {
+					ms.ghosts["log."+l+".n"] = true
+					ms.ghosts["logarrays."+l] = true
+				}
+				for _, a := range eff.ArgRoots {
+					addRoot(a)
+				}
+				if eff.Opaque {
+					ms.allHeap = true
+				}
+				for _, k := range eff.Ghost {
+					ms.ghosts[k] = true
+				}
 			case *ssa.Next:
 				if rg, ok := in.Iter.(*ssa.Range); ok && in.IsString {
 					ms.ghosts["iter."+rg.Name()] = true
